@@ -5,7 +5,8 @@
 From Coq Require Import Reals ZArith List Permutation.
 From PV Require Import Num NumR Model_voigt Proofs_tensors_alg Proofs_tensors_rot
   Proofs_tensors_maps Proofs_tensors_proj Inst_tensors Proofs_voigt Model_decomp Proofs_decomp Proofs_voigt2 Proofs_voigt3
-  Inst_voigt Inst_voigt_a0 Inst_voigt_a1 Inst_voigt_a01 Inst_voigt_a10 Proofs_voigt_gen.
+  Inst_voigt Inst_voigt_m1_a1 Inst_voigt_m1_a01 Inst_voigt_m1_a10 Inst_voigt_a0 Inst_voigt_a0_b Inst_voigt_a1 Inst_voigt_a01 Inst_voigt_a10
+  Proofs_voigt_gen.
 From PV.gen Require Import Gen_tensors Gen_voigt.
 Import ListNotations.
 Open Scope R_scope.
@@ -281,20 +282,20 @@ Theorem C10_generated_a0_m2_s1_g1 : forall (ph0 ph1 : Z) (phis Sol Sen O0 F0 O1 
   flat_res (@voigt_averages NumR [mk_min ph0 1 1 1 1 O0 F0; mk_min ph1 1 1 1 1 O1 F1] [0%Z] (arr_to_list 1 phis) [Sol; Sen]).
 Proof. exact voigt_inst_a0_m2_s1_g1. Qed.
 
-Theorem C10_generated_a0_m2_s2_g2 : forall (ph0 ph1 : Z) (phis Sol Sen O0 F0 O1 F1 : RA),
-  @k_voigt_a0_m2_s2_g2 NumR ph0 ph1 phis Sol Sen O0 F0 O1 F1 =
-  flat_res (@voigt_averages NumR [mk_min ph0 2 2 2 2 O0 F0; mk_min ph1 2 2 2 2 O1 F1] [0%Z] (arr_to_list 1 phis) [Sol; Sen]).
-Proof. exact voigt_inst_a0_m2_s2_g2. Qed.
+Theorem C10_generated_a0_m2_s2_g1 : forall (ph0 ph1 : Z) (phis Sol Sen O0 F0 O1 F1 : RA),
+  @k_voigt_a0_m2_s2_g1 NumR ph0 ph1 phis Sol Sen O0 F0 O1 F1 =
+  flat_res (@voigt_averages NumR [mk_min ph0 1 2 2 1 O0 F0; mk_min ph1 1 2 2 1 O1 F1] [0%Z] (arr_to_list 1 phis) [Sol; Sen]).
+Proof. exact voigt_inst_a0_m2_s2_g1. Qed.
+
+Theorem C10_generated_a0_m2_s1_g2 : forall (ph0 ph1 : Z) (phis Sol Sen O0 F0 O1 F1 : RA),
+  @k_voigt_a0_m2_s1_g2 NumR ph0 ph1 phis Sol Sen O0 F0 O1 F1 =
+  flat_res (@voigt_averages NumR [mk_min ph0 2 1 1 2 O0 F0; mk_min ph1 2 1 1 2 O1 F1] [0%Z] (arr_to_list 1 phis) [Sol; Sen]).
+Proof. exact voigt_inst_a0_m2_s1_g2. Qed.
 
 Theorem C10_generated_a1_m2_s1_g1 : forall (ph0 ph1 : Z) (phis Sol Sen O0 F0 O1 F1 : RA),
   @k_voigt_a1_m2_s1_g1 NumR ph0 ph1 phis Sol Sen O0 F0 O1 F1 =
   flat_res (@voigt_averages NumR [mk_min ph0 1 1 1 1 O0 F0; mk_min ph1 1 1 1 1 O1 F1] [1%Z] (arr_to_list 1 phis) [Sol; Sen]).
 Proof. exact voigt_inst_a1_m2_s1_g1. Qed.
-
-Theorem C10_generated_a1_m2_s2_g2 : forall (ph0 ph1 : Z) (phis Sol Sen O0 F0 O1 F1 : RA),
-  @k_voigt_a1_m2_s2_g2 NumR ph0 ph1 phis Sol Sen O0 F0 O1 F1 =
-  flat_res (@voigt_averages NumR [mk_min ph0 2 2 2 2 O0 F0; mk_min ph1 2 2 2 2 O1 F1] [1%Z] (arr_to_list 1 phis) [Sol; Sen]).
-Proof. exact voigt_inst_a1_m2_s2_g2. Qed.
 
 Theorem C10_generated_a01_m2_s1_g1 : forall (ph0 ph1 : Z) (phis Sol Sen O0 F0 O1 F1 : RA),
   @k_voigt_a01_m2_s1_g1 NumR ph0 ph1 phis Sol Sen O0 F0 O1 F1 =
